@@ -692,6 +692,68 @@ package app
 //@   ensures unknown: !old(name in p.project.Processes) ==> result != nil
 //@   ensures unchanged-on-error: (scale < 1 || !old(name in p.project.Processes)) ==> spawned(fntag("(*app.ProjectRunner).runProcess$1")) == old(spawned(fntag("(*app.ProjectRunner).runProcess$1"))) && stops() == old(stops()) && runs() == old(runs()) && kept("abool") && unchangedOld("MapDom.Str.types.ProcessConfig") && unchangedOld("MapVal.Str.types.ProcessConfig") && unchangedOld("MapDom.Str.ptr.app.Process") && unchangedOld("MapVal.Str.ptr.app.Process")
 
+// ---------- C07: run plan ----------
+// With --no-deps exactly the processes whose NAME is requested stay enabled (every replica of them) and lose their
+// dependencies; every other process is marked disabled. An empty request selects everything.
+//@ define requested(procList []string, n string) bool = exists i int {procList[i]} :: 0 <= i && i < len(procList) && procList[i] == n
+//@ func (p *ProjectRunner) selectRunningProcessesNoDeps
+//@   requires p.project.Processes != nil
+//@   ensures all: len(procList) == 0 ==> unchangedOld("MapVal.Str.types.ProcessConfig")
+//@   ensures selected: len(procList) != 0 ==> (forall k string :: k in p.project.Processes && requested(procList, old(p.project.Processes[k].Name)) ==> !p.project.Processes[k].Disabled && (forall d string :: !(d in p.project.Processes[k].DependsOn)))
+//@   ensures others-disabled: len(procList) != 0 ==> (forall k string :: k in p.project.Processes && !requested(procList, old(p.project.Processes[k].Name)) ==> p.project.Processes[k].Disabled)
+//@   ensures keys: forall k string :: k in p.project.Processes <==> old(k in p.project.Processes)
+//@   loop 1 invariant p.project.Processes != nil && len(procList) != 0
+//@   loop 1 invariant forall k string :: k in p.project.Processes <==> old(k in p.project.Processes)
+//@   loop 1 invariant untouched: forall k string :: !seen1(k) && k in p.project.Processes ==> p.project.Processes[k] == old(p.project.Processes[k])
+//@   loop 1 invariant sel-enabled: forall k string :: seen1(k) && k in p.project.Processes && requested(procList, old(p.project.Processes[k].Name)) ==> !p.project.Processes[k].Disabled
+//@   loop 1 invariant sel-nodeps: forall k string :: seen1(k) && k in p.project.Processes && requested(procList, old(p.project.Processes[k].Name)) ==> (forall d string :: !(d in p.project.Processes[k].DependsOn))
+//@   loop 1 invariant dis: forall k string :: seen1(k) && k in p.project.Processes && !requested(procList, old(p.project.Processes[k].Name)) ==> p.project.Processes[k].Disabled
+//@   loop 2 invariant idx >= -1 && p.project.Processes != nil && len(procList) != 0
+//@   loop 2 invariant forall j int {procList[j]} :: 0 <= j && j <= idx ==> procList[j] != proc.Name
+
+// With dependencies: the visitor keeps every visited process except foreground ones (config-disabled processes that
+// are requested or needed ARE selected); afterwards a process is enabled exactly when it was visited.
+//@ func (p *ProjectRunner) selectRunningProcesses$1
+//@   requires newProcMap != nil
+//@   ensures kept: !process.IsForeground ==> process.ReplicaName in newProcMap
+//@   ensures foreground-skipped: process.IsForeground ==> (forall k string :: k in newProcMap <==> old(k in newProcMap))
+//@   ensures result == nil
+//@   assigns newProcMap[process.ReplicaName]
+//@   preserves mapnn: newProcMap != nil
+//@ func (p *ProjectRunner) selectRunningProcesses
+//@   requires p.project != nil && p.project.Processes != nil
+//@   ensures all: len(procList) == 0 ==> result == nil && unchangedOld("MapVal.Str.types.ProcessConfig")
+//@   ensures keys-ok: result == nil ==> (forall k string :: k in p.project.Processes <==> old(k in p.project.Processes))
+//@   ensures failed: result != nil ==> unchangedOld("MapVal.Str.types.ProcessConfig") && unchangedOld("MapDom.Str.types.ProcessConfig")
+//@   loop 1 invariant p.project.Processes != nil && newProcMap != nil && newProcMap != p.project.Processes
+//@   loop 1 invariant forall k string :: k in p.project.Processes <==> old(k in p.project.Processes)
+//@   loop 1 invariant selection: forall k string :: seen1(k) && k in p.project.Processes ==> (p.project.Processes[k].Disabled <==> !(k in newProcMap))
+
+// Automatic start-up: the visitor of Run drops disabled and foreground processes, so that only processes that are
+// neither are ever handed to runProcess by Run.
+//@ define startable(c types.ProcessConfig) bool = !c.IsForeground && !c.Disabled
+//@ func (p *ProjectRunner) Run$1
+//@   ensures deferred-skipped: (process.IsForeground || process.Disabled) ==> len(runOrder) == old(len(runOrder))
+//@   ensures result == nil
+//@   preserves only-startable: forall i int {runOrder[i]} :: 0 <= i && i < len(runOrder) ==> startable(runOrder[i])
+
+// env_cmds: runs the configured commands and appends NAME=output to the global environment (C17); nothing else changes
+//@ func runCmd
+//@   param cancel as cancelfunc
+//@   assigns ctxCount(), lastTimeout(), cancelCalls[*], cancelled[*]
+//@ func (p *ProjectRunner) prepareEnvCmds
+//@   requires noLocks()
+//@   ensures noLocks()
+//@   assigns types.Project.Environment[*], heap(Elem.Str), ctxCount(), lastTimeout(), cancelCalls[*], cancelled[*]
+//@   loop 1 invariant noLocks()
+//@ func (p *ProjectRunner) Run
+//@   requires noLocks() && p.project != nil && p.project.Processes != nil && p.project.ShellConfig != nil
+//@   after (*app.ProjectRunner).runProcess assert only-startable-started: !newConf.IsForeground && !newConf.Disabled
+//@   ensures joined: joins() >= old(joins()) + 1 || result != nil
+//@   loop 1 invariant idx >= -1 && noLocks() && runnerWF(p)
+//@   loop 2 invariant idx >= -1 && noLocks() && runnerWF(p)
+//@   loop 2 invariant forall i int {runOrder[i]} :: 0 <= i && i < len(runOrder) ==> startable(runOrder[i])
+
 // ---------- C10: probe outcomes ----------
 //@ func (p *Process) onReadinessCheckEnd
 //@   requires procWF(p) && unlocked(p) && bufWF(p.logBuffer)
